@@ -21,6 +21,31 @@ def parse_warnings(stream_text: str) -> list[dict]:
     return out
 
 
+_REGISTERED = False
+
+
+def register_harness_directives():
+    """A user directive of the kind Sphinx's `only` / nested_parse_with_titles are: the body is
+    parsed into a node with headings allowed (match_titles=True).  docutils ships none, so the
+    harness registers one (any project may)."""
+    global _REGISTERED
+    if _REGISTERED:
+        return
+    from docutils import nodes
+    from docutils.parsers.rst import Directive, directives
+
+    class VerifTitles(Directive):
+        has_content = True
+
+        def run(self):
+            node = nodes.container()
+            self.state.nested_parse(self.content, self.content_offset, node, match_titles=True)
+            return [node]
+
+    directives.register_directive("verif-titles", VerifTitles)
+    _REGISTERED = True
+
+
 def docutils_doctree(text: str, overrides: dict | None = None, *, transforms: bool = True,
                      source_path: str | None = None):
     """Returns (doctree, warnings list). halt_level=5: nothing is turned into an exception by
@@ -30,6 +55,7 @@ def docutils_doctree(text: str, overrides: dict | None = None, *, transforms: bo
     from docutils.utils import new_document
     from myst_parser.parsers.docutils_ import Parser
 
+    register_harness_directives()
     ws = io.StringIO()
     ov = {"warning_stream": ws, "halt_level": 5, "report_level": 2,
           "doctitle_xform": False, "sectsubtitle_xform": False,
